@@ -8,7 +8,8 @@
                      to Go on the runes the generators use)                            -> code 1     *)
 From Coq Require Import List NArith Bool Arith.
 Import ListNotations.
-Require Import V.Lib.RunCases V.C10.Core.
+Require Import V.Lib.RunCases.
+Require Export V.C10.Core.
 
 Inductive impl := IErr (c : N) | IBoard (b : board).
 
@@ -157,10 +158,11 @@ Definition cstep (p : program) (d : decl) (rp r : impl) : list N :=
              | Some Ds, Some Dt, IBoard bp =>
                  let hit := fun e => gclass_eqb (fkey Ds) (fkey Dt) sa da e && Nat.eqb (gidx e) i in
                  let strip := fun e => mkGEdge (gsrc e) (gdst e) (gsa e) (gda e) 0 (gelabel e) (gestyle e) in
-                 flag (existsb hit (gedges bp)
-                       && list_eqb gedge_eqb (map strip (filter (fun e => negb (hit e)) (gedges bp)))
-                                              (map strip (gedges b))
-                       && list_eqb gobj_eqb (gobjs bp) (gobjs b)) 17
+                 if existsb hit (gedges bp) then
+                   flag (list_eqb gedge_eqb (map strip (filter (fun e => negb (hit e)) (gedges bp)))
+                                            (map strip (gedges b))
+                         && list_eqb gobj_eqb (gobjs bp) (gobjs b)) 17
+                 else []     (* a missing index is C11's business *)
              | _, _, _ => []
              end
          | DEdgeAttr s t sa da i k None =>
@@ -188,7 +190,7 @@ Definition cstep (p : program) (d : decl) (rp r : impl) : list N :=
                    let K := fkey D in
                    flag (match gfind K (gobjs b) with
                          | Some o =>
-                             path_eqb (gpath o) D        (* spelled as in the new declaration *)
+                             str_eqb (last (gpath o) []) (last D [])   (* spelled as in the new declaration *)
                              && str_eqb (glabel o) (match pv with PStr v => v | _ => last D [] end)
                              && str_eqb (gshape o) rectangle && no_style o
                          | None => false end
